@@ -140,3 +140,19 @@ theorem filterMap_ite {β γ : Type} (l : List β) (c : β → Bool) (g : β →
     by_cases h : c x <;> simp [h, ih]
 
 end Cnfgen.Fam
+
+namespace Cnfgen.Fam
+open Cnfgen
+
+theorem combos_singletons {β : Type} : ∀ (l : List β), combos l 1 = l.map (fun y => [y])
+  | [] => rfl
+  | x :: xs => by simp [combos, combos_singletons xs]
+
+/-- `pairs` is `itertools.combinations(·, 2)` (as modelled by `combos`) -/
+theorem pairs_eq_combos {β : Type} : ∀ (l : List β), (pairs l).map (fun p => [p.1, p.2]) = combos l 2
+  | [] => rfl
+  | x :: xs => by
+    simp only [pairs, combos, List.map_append, List.map_map, pairs_eq_combos xs, combos_singletons]
+    rfl
+
+end Cnfgen.Fam
